@@ -229,7 +229,7 @@ Definition model_pages (c : case) : option (list opage) :=
 
 Definition with_pages (c : case) (ps : list opage) : case :=
   {| segs := segs c; full := full c; limit := limit c; cand := cand c; fast := fast c;
-     exhaustive := exhaustive c; gen := gen c; plan := plan c; nfields := nfields c;
+     exhaustive := exhaustive c; strategy := strategy c; gen := gen c; plan := plan c; nfields := nfields c;
      pages := ps; overrun := false; replays := [] |}.
 
 Lemma list_eqb_refl_pairs : forall l : list (N * N), list_eqb pair_eqb l l = true.
